@@ -254,7 +254,12 @@ def run_property(prop, cfg, tier, seed, jobs, work, rebaseline=False, only=None)
                 case = hunted
             kf = None
             for k in known:
-                if k.get('property') == prop and k.get('unit', '') in f['obligation'] and (case is None or k.get('input') is None or k.get('input') == (case or {}).get('input_id')):
+                if k.get('property') != prop:
+                    continue
+                same_input = k.get('input') is not None and case is not None and k.get('input') == case.get('input_id')
+                same_unit = bool(k.get('unit')) and k['unit'] in f['obligation']
+                # a listed finding is identified by its failing input (and unit); a different input or another unit is still reported
+                if same_input or (same_unit and (k.get('input') is None or case is None)):
                     kf = k
             if kf is not None:
                 known_lines.append('KNOWN-FINDING: property=%s %s' % (prop, kf['raw'].split(' ', 2)[-1]))
@@ -301,7 +306,7 @@ def run_property(prop, cfg, tier, seed, jobs, work, rebaseline=False, only=None)
     if not only:
         D.write_evidence(prop, ev)
     log('== %s: %d/%d obligations discharged, %d failed obligation(s), %d undecided, %.1fs' % (prop, n_ok, n_obl, len(failures), len(undecided), wall))
-    for l in known_lines:
+    for l in sorted(set(known_lines)):
         print(l)
     if undecided and not failures and not only and cfg.get('hunt_when_undecided', True):
         # The proof does not apply (restructured code, front-end rejection, rlimit).  That alone is never an alarm; but a
